@@ -73,6 +73,17 @@ auto get_range_split_object( PartitionerSplitType& split_obj )
     return range_split_object_provider<Range>::get(split_obj);
 }
 
+//! True if dimension b is larger than dimension a relative to their grain sizes, i.e. b is the one to split.
+/** The sizes are compared in floating point, which is inexact for huge ranges; a dimension that
+    cannot be split is therefore never preferred to one that can be. **/
+template <typename DimRange1, typename DimRange2>
+bool is_relatively_smaller( const DimRange1& a, const DimRange2& b ) {
+    bool a_divisible = a.is_divisible();
+    bool b_divisible = b.is_divisible();
+    if ( a_divisible != b_divisible ) return b_divisible;
+    return a.size()*double(b.grainsize()) < b.size()*double(a.grainsize());
+}
+
 template <typename Range>
 using range_iterator_type = decltype(std::begin(std::declval<Range&>()));
 
